@@ -6,6 +6,8 @@ package frugal
 // workers / processMessages, ack goroutines and the unsubscriber.
 
 import (
+	"unsafe"
+	"reflect"
 	"encoding/binary"
 	"errors"
 	"fmt"
@@ -61,14 +63,16 @@ func vfPSMake(scn string) (func(), func(*vsched.Exec) (string, *vsched.Violation
 			factory := NewFNatsSubscriberFactoryBuilder(c).WithWorkerCount(uint(workers)).WithQueueLength(4).Build()
 			sub = factory.GetTransport()
 			// the builder's factory ignores its queue settings in GetTransport: use what it returns
-			sub.(*fNatsSubscriberTransport).workerCount = uint(workers)
+			// (fields are reached by name through reflection: a tree that organises the subscriber
+			// differently still builds, and simply runs with what its factory produced)
+			vfPokeField(sub, "workerCount", uint(workers))
 			if q, err := strconv.Atoi(cfg["q"]); err == nil {
 				// a short work queue, so that a handful of messages is a burst that fills it
-				sub.(*fNatsSubscriberTransport).workC = make(chan *fakenats.Msg, q)
+				vfPokeChanCap(sub, "workC", q)
 			}
 			if cfg["s2"] == "1" {
 				sub2 = factory.GetTransport()
-				sub2.(*fNatsSubscriberTransport).workerCount = uint(workers)
+				vfPokeField(sub2, "workerCount", uint(workers))
 			}
 			pub = NewNatsFPublisherTransport(c)
 			raw = func(topic string, data []byte) { c.Publish("frugal."+topic, data) }
@@ -402,4 +406,34 @@ func vfMarkIndex(mark string) int {
 		return -1
 	}
 	return n
+}
+
+// vfPokeField sets the unexported field `name` of the struct obj points to when such a field of a
+// matching type exists; it reports whether it did.
+func vfPokeField(obj interface{}, name string, val interface{}) bool {
+	v := reflect.ValueOf(obj)
+	if v.Kind() != reflect.Ptr || v.Elem().Kind() != reflect.Struct {
+		return false
+	}
+	f := v.Elem().FieldByName(name)
+	nv := reflect.ValueOf(val)
+	if !f.IsValid() || !nv.Type().AssignableTo(f.Type()) {
+		return false
+	}
+	reflect.NewAt(f.Type(), unsafe.Pointer(f.UnsafeAddr())).Elem().Set(nv)
+	return true
+}
+
+// vfPokeChanCap replaces the channel held by field `name` with a fresh one of capacity n.
+func vfPokeChanCap(obj interface{}, name string, n int) bool {
+	v := reflect.ValueOf(obj)
+	if v.Kind() != reflect.Ptr || v.Elem().Kind() != reflect.Struct {
+		return false
+	}
+	f := v.Elem().FieldByName(name)
+	if !f.IsValid() || f.Kind() != reflect.Chan {
+		return false
+	}
+	reflect.NewAt(f.Type(), unsafe.Pointer(f.UnsafeAddr())).Elem().Set(reflect.MakeChan(f.Type(), n))
+	return true
 }
